@@ -1,8 +1,10 @@
 //! pdbverif: drives the real parity-db and emits protocol traces for the Lean model driver,
 //! plus independent oracle checks.  One sub-command per model slice.
+mod c05;
 mod c06;
 mod c08;
 mod c10;
+mod c11;
 mod c12;
 mod c17;
 mod interpose;
@@ -34,6 +36,8 @@ fn dispatch(cmd: &str) -> Option<RunFn> {
 		"c12x" => c12::run_reindex,
 		"c17" => c17::run,
 		"c20" => c20::run,
+		"c05" => c05::run,
+		"c11" => c11::run,
 		_ => return None,
 	})
 }
